@@ -255,11 +255,22 @@ inline std::string to_integer_literal(
         static constexpr auto max_signed_literal = 9223372036854775807;
         if(*v > max_signed_literal)
         {
-            return fmt::format("{}UL", value);
+            return fmt::format("{}UL", *v);
         }
     }
 
-    return std::string{value};
+    // the value is not pasted as is because forms like `08` or `007`, which are
+    // valid decimal numbers in XML, are invalid or octal literals in C++
+    if(value[0] == '-')
+    {
+        const auto v = string_to_number<std::int64_t>(value);
+        assert(v);
+        return fmt::format("{}", *v);
+    }
+
+    const auto v = string_to_number<std::uint64_t>(value);
+    assert(v);
+    return fmt::format("{}", *v);
 }
 
 inline std::string get_compiled_header_top_comment()
@@ -412,6 +423,13 @@ inline std::string numeric_literal_to_value(
         else if(value == "-INF")
         {
             return fmt::format("-::std::numeric_limits<{}>::infinity()", type);
+        }
+
+        // a value without `.` or exponent (e.g. `08`) has to become a
+        // floating-point literal, otherwise it is an (octal) integer one
+        if(value.find_first_of(".eE") == std::string_view::npos)
+        {
+            return fmt::format("{}.0", value);
         }
 
         return std::string{value};
